@@ -137,12 +137,12 @@ def hyp_cases(max_L, max_L_2d, max_color, max_n):
 
 def run(ctx):
     if ctx.tier == 'quick':
-        cases = domain.all_code_cases(4, 6, 3, max_n=700)
+        cases = domain.all_code_cases(4, 6, 3, max_n=700, thin=True)
         ctx.run_cases(cases, chunk=8)
         ctx.run_hypothesis('hyp_cases', 160, max_L=7, max_L_2d=12,
                            max_color=4, max_n=1200)
     else:
-        cases = domain.all_code_cases(7, 16, 5, max_n=5000)
+        cases = domain.all_code_cases(7, 16, 5, max_n=5000, thin=True)
         ctx.run_cases(cases, chunk=4)
         ctx.run_hypothesis('hyp_cases', 2400, max_L=10, max_L_2d=24,
                            max_color=6, max_n=6000)
